@@ -57,7 +57,7 @@ def _rt_chunk(chunk):
     for s in chunk:
         if '\n' in s:
             continue
-        nt += any(c in s for c in ' $\'"\;*#:')
+        nt += any(c in s for c in ' $\'"\\;*#:')
         try:
             a = nb.NinjaCommandArg(s)           # Quoting.both
             q = nb.NinjaRule._quoter(a)
